@@ -5,13 +5,15 @@ SPEC = {
     "translators": ["gen_modcaps"],
     "bins": ["c11"],
     "model_targets": ["Modules/ModCheck.vo"],
-    "proof_targets": ["Modules/RvaProofs.vo", "Modules/CapsProofs.vo"],
+    "proof_targets": ["Modules/RvaProofs.vo", "Modules/CapsProofs.vo", "Modules/LebProofs.vo", "Modules/VarIntProofs.vo", "Modules/CoresProofs.vo"],
     "assumptions": [
-        "PARTIAL claim: proved are the arithmetic of pe::rva_to_offset (as coded) and the iteration / depth bounds of the loop skeletons with the caps extracted from the parsers; nom parsers, ASN.1 / authenticode, protobuf, hashing, allocation and the call stack are not modelled",
+        "PARTIAL claim: proved are arithmetic cores as coded (pe::rva_to_offset, uleb128/sleb128, dotnet var_uint/var_sint, dotnet coded/table index widths and decoding, pe overlay, lnk length_data, elf rva_to_offset) and the iteration / depth / expansion bounds of the loop and graph-walk skeletons (capped loops, pe resource walk, macho export trie walk) with the caps and guard shapes extracted from the parsers; nom parsers, ASN.1 / authenticode, protobuf, hashing, allocation and the call stack are not modelled",
+        "f64::log2(n).ceil() is modelled as log2_up for the 1..22 table counts that occur (tied by K through the hook); nom's bit-level parsers are modelled most-significant-bit first",
         "totality, wall time, memory and determinism of the real modules are TESTED (child processes with RLIMIT_AS, wall-time limit, three invocations + two scans per input), not proved",
         "the loop skeletons are hand-written from the source; the translator checks that each cap is applied in the shape modelled (min(count, MAX), .take(MAX), len == MAX -> return, *depth == MAX -> Err) and fails otherwise",
     ],
     "trusted_base": ["Gen/ModCaps.v: MAX_* constants of pe/dotnet/dex parsers, resource-walk level cut, absence of a visited set, depth-guard shape - regenerated from lib/src/modules/{pe,dotnet,dex}/parser.rs",
+                     "hooks (cfg yara_x_verif, add-only): lib/src/modules/verif_c11.rs (uleb128, sleb128), verif_c11_dotnet.rs (var_uint, var_sint, coded_index, table_index), verif_c11_lnk.rs (length_data); the other cores are compared through the modules' public output",
                      "checks/C11.py: unzips and Intel-HEX-decodes the repository's module test samples into .cache/c11-samples"],
 }
 
@@ -22,7 +24,12 @@ RULE = ("(supporting tests) corpus from one PRNG: the repository's module sample
         "len-1, 0x7fffffff, own offset; cross-format splices; small and random bytes behind 12 valid magics; a PE whose resource directory is a "
         "self-referential two-node graph (e = 40 ... 1200 entries, up to 20 KB; regression inputs of the repaired quartic / cubic walk). Each input: child process with RLIMIT_AS = 3 GiB and a wall-time limit; "
         "mods::invoke_all twice + once on a second thread (messages compared with PartialEq), a scan with rules importing every module twice; first "
-        "call must finish within 4 s + 60 us/byte. PE outputs: every (rva, offset) pair visible (entry point, exports, resources) recomputed by "
+        "call must finish within 4 s + 60 us/byte and its peak resident memory must stay below 256 MiB + 256 x size. Graph-shaped inputs: hand-built Mach-O "
+        "export tries that are trees, diamonds (every path distinct), cycles (to the root, an earlier node, itself; empty and non-empty labels), random graphs and "
+        "deep chains, with the check exports <= trie nodes; OLE/CF FAT entries and ELF sh_link/sh_info rewired into cycles and joins; ELF / Mach-O tables whose "
+        "entries share one long name. Arithmetic cores: uleb128/sleb128, var_uint/var_sint, coded/table indexes and lnk length_data are called through the hook "
+        "on encoded boundary values and random bytes and compared with the Coq models; pe overlay and elf entry-point conversion are recomputed from the "
+        "modules' outputs for every (mutated) sample. PE outputs: every (rva, offset) pair visible (entry point, exports, resources) recomputed by "
         "Modules/Rva.v on the section table of the same file. Non-trivial: distinct (label, output size).")
 
 SAMPLES = "c11-samples"
@@ -88,6 +95,10 @@ def prepare_samples(drv):
 def classify(case):
     if case.get("kind") == "run":
         return f"C11:{case.get('class')}:{case.get('fail') or '?'}"
+    if case.get("kind") == "count":
+        return f"C11:{case.get('class')}:more-exports-than-trie-nodes"
+    if case.get("kind") == "core":
+        return f"C11:core:{case.get('core')}"
     return "C11:" + str(case.get("kind"))
 
 
@@ -96,9 +107,9 @@ def run_k(run, tier, seed, drv):
     if err:
         return {"broken": [("harness:c11", err)], "violations": []}
     if tier == "quick":
-        args = ["--seed", seed, "--samples", sdir, "--max-samples", 48, "--trunc", 10, "--fields", 12, "--bomb", "40,80,128,256,512,800,1200", "--limit-ms", 20000]
+        args = ["--seed", seed, "--samples", sdir, "--max-samples", 48, "--trunc", 10, "--fields", 12, "--bomb", "40,80,128,256,512,800,1200", "--names", "200:2000,6000:150000", "--cores", 1600, "--limit-ms", 20000]
     else:
-        args = ["--seed", seed, "--samples", sdir, "--max-samples", 400, "--max-size", 4000000, "--trunc", 64, "--fields", 64, "--bomb", "40,80,101,102,128,160,256,320,512,800,1200,4000", "--limit-ms", 30000]
+        args = ["--seed", seed, "--samples", sdir, "--max-samples", 400, "--max-size", 4000000, "--trunc", 64, "--fields", 64, "--bomb", "40,80,101,102,128,160,256,320,512,800,1200,4000", "--names", "200:2000,3000:80000,6000:150000,12000:300000", "--cores", 40000, "--limit-ms", 30000]
     info = standard_k(run, drv, "C11", "c11", args, "K_C11_rva_to_offset", classify, max_report=50)
     info["rule"] = RULE
     return info
@@ -113,20 +124,20 @@ def replay(d, drv):
 
 
 MANIFEST = {
-    "level_text": ("PARTIAL. Machine-checked proofs (Coq) for the arithmetic core pe::rva_to_offset modelled exactly as coded (u32 with explicit "
-                   "saturating / checked / plain operations): no step under- or overflows for any section table and rva, and a returned offset is "
-                   "the (aligned) raw-data start of the section the loop settles on plus a displacement inside its raw data; and for the loop "
-                   "skeletons of the parsers (counted parse, capped iterator, collect-to-cap, depth-guarded recursion) with the MAX_* constants "
-                   "and guard shapes regenerated from the Rust source: iterations <= cap, depth <= limit. The PE resource walk (level cut and queue guard "
-                   "and the cap on examined entries regenerated) is proved to examine at most min(E(1+E+E^2), MAX_PE_RESOURCE_DIR_ENTRIES + 1) entries - a constant "
-                   "independent of the file - exact for a self-referential table. "
-                   "Everything else the property says (no panic, stack, time, memory, determinism of the real modules on any bytes) is supported by "
-                   "tests in resource-limited child processes over samples, truncations, field mutations, splices and magic+random inputs; the "
-                   "model of rva_to_offset is compared with every (rva, offset) pair visible in the PE module's output."),
+    "level_text": ("PARTIAL. Machine-checked proofs (Coq) for arithmetic cores over attacker-controlled integers, each modelled exactly as coded with "
+                   "explicit checked / saturating / wrapping semantics: pe::rva_to_offset (no under/overflow, result specification), uleb128 / sleb128 "
+                   "(shift counter cannot overflow, <= 10 bytes, result range, decode(encode n) = n for every u64), dotnet var_uint / var_sint (ranges, "
+                   "round trips), dotnet coded / table index widths and decoding, pe overlay, lnk length_data, elf rva_to_offset (no underflow, in "
+                   "bounds); and for the loop and graph-walk skeletons with constants and guard shapes regenerated from the Rust source: iterations <= "
+                   "cap, depth <= limit, PE resource walk <= min(cubic, MAX_PE_RESOURCE_DIR_ENTRIES + 1) entries, Mach-O export trie walk <= one "
+                   "expansion per distinct offset (visited-set key extracted from the source). Everything else the property says (no panic, stack, "
+                   "time, memory, determinism of the real modules on any bytes) is supported by tests in resource-limited child processes over "
+                   "samples, truncations, field mutations, graph rewiring, splices and magic+random inputs; every core is compared with the real "
+                   "function (hook or public output)."),
     "level_note": ("Not modelled: nom parsers, ASN.1, authenticode, protobuf, hashing; a theorem cannot exhibit stack overflow or allocation growth. "
-                   "Repaired after this check found them (c84671ba, 37a1e029): the quartic, then cubic walk of self-referential PE resource directories; "
-                   "the regression inputs (up to 1200 entries per directory, 20 KB) stay in the corpus and must meet the time bound. The counter counts "
-                   "entries after the offset filter; entries with invalid offsets are skipped uncounted (at most section length / 8 per directory)."),
+                   "Repaired after this check found them (c84671ba, 37a1e029): quartic / cubic walk of self-referential PE resource directories. "
+                   "Known findings (quadratic memory, patches in fixes/C11-1, C11-2): ELF section/symbol names, Mach-O symtab and chained-fixups names "
+                   "read without a length limit, Mach-O export names accumulated along a chain-shaped trie."),
     "technique": "Coq proofs over an exact model of rva_to_offset and over capped-loop skeletons with source-generated caps + resource-limited differential tests in child processes",
     "design_ref": "DESIGN.md section 4, C11",
 }
